@@ -201,11 +201,16 @@ def check_disjoint_headers(*parts: Any) -> None:
     # names in the different locations MUST be disjoint
     seen: set[str] = set()
     for part in parts:
-        if isinstance(part, dict):
-            duplicated = seen.intersection(part)
-            if duplicated:
-                raise ValueError(f"Duplicated {sorted(duplicated)} in header")
-            seen.update(part)
+        if part is None:
+            continue
+        # every location holds a JSON object; an array of [name, value] pairs would
+        # be merged by dict.update() as well, without its names being looked at
+        if not isinstance(part, dict):
+            raise ValueError("Invalid header")
+        duplicated = seen.intersection(part)
+        if duplicated:
+            raise ValueError(f"Duplicated {sorted(duplicated)} in header")
+        seen.update(part)
 
 
 def check_crit_header(header: Header) -> None:
